@@ -51,6 +51,16 @@ pub const REFS: &[(&str, &str, &str)] = &[
   ("no-console", "console", "q5 ? $.log(1) : $.warn(2);"),
   ("no-process-global", "process", "[q6, $.env.X];"),
   ("no-node-globals", "clearImmediate", "$(1);"),
+  // the reference is a write: assignment target, pattern element, loop head without a declaration
+  ("no-node-globals", "Buffer", "$ = 1;"),
+  ("no-node-globals", "global", "$ ||= {};"),
+  ("no-node-globals", "setImmediate", "[q8, $] = ts;"),
+  ("no-node-globals", "global", "({ g: $ } = hs);"),
+  ("no-node-globals", "Buffer", "for ($ of ls) {}"),
+  ("no-node-globals", "global", "$++;"),
+  ("no-process-global", "process", "$ = 1;"),
+  ("no-process-global", "process", "[$] = ts;"),
+  ("no-process-global", "process", "for ($ in os) {}"),
   ("no-deprecated-deno-api", "Deno", "let q7: $.File;"),
   ("prefer-primordials", "isNaN", "$(1);"),
   ("prefer-primordials", "parseInt", "g($);"),
